@@ -59,7 +59,7 @@ def parse_hist(line):
             ops.append(("remove", p.b()))
         elif k == "vanish":
             ops.append(("vanish", p.b()))
-        elif k in ("reopen", "rebuild"):
+        elif k in ("reopen", "rebuild", "map"):
             ops.append((k,))
         elif k == "xput":
             ops.append(("xput", p.b(), p.b(), p.b()))
@@ -131,7 +131,7 @@ def align8(x):
 
 ALL_ASPECTS = {"store.result", "store.errclass", "store.offset", "ids.has", "ids.del", "ids.hash", "addrs.asof", "addrs.find",
                "stats.main", "stats.tags", "stats.del", "stats.bytes", "offs", "extra", "query", "remove", "vanish",
-               "reopen", "rebuild", "noop-on-failure", "reopen-preserves", "rebuild-preserves", "rebuild-compact"}
+               "reopen", "rebuild", "noop-on-failure", "reopen-preserves", "rebuild-preserves", "rebuild-compact", "map.bytes"}
 
 
 def judge_history(line, model_out, impl_out, aspects, gcls=""):
@@ -205,6 +205,22 @@ def judge_history(line, model_out, impl_out, aspects, gcls=""):
             if corr_fail is None and (k in aspects) and iseg != mseg:
                 corr_fail = (n, "%s: impl %s model %s" % (k, iseg[:60], mseg[:60]))
             pending = (k, iseg)
+        elif k == "map":
+            # the bytes of the real event.map against the byte-level model (LogBytes.v: bytes_of_log of the model's log).
+            # digest = len:end:tail:block hashes.  The model always runs with 2048-byte chunks; a release-profile file
+            # (4 MiB chunks) is compared in everything but its length, which must be a whole number of chunks, at least
+            # the end marker, and not a chunk more than the last append needed.
+            if "map.bytes" in aspects and corr_fail is None:
+                a, b = iseg.split(" ")[-1].split(":"), mseg.split(" ")[-1].split(":")
+                if len(a) != 4 or len(b) != 4:
+                    corr_fail = (n, "map: impl %s model %s" % (iseg[:60], mseg[:60]))
+                else:
+                    ilen, iend = int(a[0]), int(a[1])
+                    same = a[1:] == b[1:] and (a[0] == b[0] if ilen % 4194304 else (ilen >= iend and (ilen == 4194304 or ilen - 4194304 < iend)))
+                    if not same:
+                        i_bl, m_bl = a[3].split("."), b[3].split(".")
+                        bad = [j for j in range(max(len(i_bl), len(m_bl))) if j >= len(i_bl) or j >= len(m_bl) or i_bl[j] != m_bl[j]]
+                        corr_fail = (n, "map: file len %s end %s, model len %s end %s, first differing 1 KiB block %s" % (a[0], a[1], b[0], b[1], bad[:1]))
         elif k == "query":
             _, f, screen, allow, lim, secs, now = op
             outcomes.add("query:" + iseg.split(" ")[0])
